@@ -370,6 +370,7 @@ func (n *Net) SendRequestAsync(ctx context.Context, addr string, req *tikvrpc.Re
 
 var errKilled = errors.New("sim: client is dead (connection lost)")
 var errDropped = errors.New("sim: injected transport error")
+var errClosed = errors.New("sim: the cluster of this case is closed")
 
 func cloneMsg(m interface{}) interface{} {
 	if pm, ok := m.(proto.Message); ok {
@@ -484,7 +485,17 @@ func (n *Net) send(ctx context.Context, addr string, req *tikvrpc.Request, timeo
 		fault.Gate()
 	}
 	n.cl.Trace.add(e)
+	// background goroutines of the client (asynchronous secondary commits, lock clean-up) may still send after the
+	// case has ended: once the cluster is closed they get an error instead of reaching a closed store (a closed
+	// leveldb / badger dereferences nil and would take the whole test process down)
+	n.cl.closeMu.RLock()
+	if n.cl.closed {
+		n.cl.closeMu.RUnlock()
+		e.Err, e.Injected = errClosed.Error(), "closed"
+		return nil, errClosed, e
+	}
 	resp, err := n.inner.SendRequest(ctx, addr, req, timeout)
+	n.cl.closeMu.RUnlock()
 	e.Delivered = err == nil
 	if e.Delivered {
 		e.ExecSeq = n.cl.Trace.exec.Add(1)
@@ -532,6 +543,8 @@ type Client struct {
 
 // Cluster is one simulated cluster with its clients.
 type Cluster struct {
+	closeMu    sync.RWMutex
+	closed     bool
 	Backend    Backend
 	Clock      *Clock // shared virtual clock; nil on unistore
 	Trace      *Trace
@@ -684,6 +697,9 @@ func (cl *Cluster) Close() {
 		c.Net.Disarm()
 		_ = c.Store.Close()
 	}
+	cl.closeMu.Lock() // waits for requests inside the store
+	cl.closed = true
+	cl.closeMu.Unlock()
 	if cl.mockCli != nil {
 		CloseMock(cl.mockCli)
 	}
